@@ -1,4 +1,4 @@
 
 // ---- verification hook, appended to a scratch copy of src/phonetic/mod.rs only ----
-#[cfg(openbangla_riti_verif)]
+#[cfg(openbangla_riti_verif_internal)]
 pub(crate) use suggestion::PhoneticSuggestion as VerifPhoneticSuggestion;
